@@ -69,38 +69,74 @@ func ruleIDX5(c *Ctx) []Ob {
 				k2 := c.fname(fn) + "/drops the requested index"
 				ctor := c.lookupFunc("index", "CreateIndex")
 				verdict, why := OK, "the dropped index is built from the field the caller named"
+				// a library helper that hands back what the constructor made (db.indexOf(tx, collection, info))
+				wrapsCtor := func(g *ssa.Function) bool {
+					if g == nil || !c.IsLib(g) {
+						return false
+					}
+					for _, ret := range returnsOf(g) {
+						rv, has := returnedValue(ret, 0)
+						if !has {
+							continue
+						}
+						for _, og := range origins(rv) {
+							if ic, ok := og.(*ssa.Call); ok && staticCallee(ic) != nil && c.declared(staticCallee(ic)) == ctor {
+								return true
+							}
+						}
+					}
+					return false
+				}
 				for _, ro := range origins(call.Common().Value) {
 					cc, isCall := ro.(*ssa.Call)
-					if !isCall || staticCallee(cc) == nil || c.declared(staticCallee(cc)) != ctor || len(cc.Common().Args) < 2 {
+					if !isCall || staticCallee(cc) == nil {
 						verdict, why = UNDECIDED, "the dropped index is not built by index.CreateIndex here"
 						continue
 					}
-					for _, fo := range c.paramSources(cc.Common().Args[1], 0) {
-						switch x := fo.(type) {
-						case *ssa.Parameter:
-						case *ssa.UnOp:
-							// a load from the catalog: no store into catalog entries may precede it
-							stale := false
-							for _, b2 := range fn.Blocks {
-								for _, in2 := range b2.Instrs {
-									st, isSt := in2.(*ssa.Store)
-									if !isSt {
-										continue
-									}
-									addr := st.Addr
-									if fa, isFA := addr.(*ssa.FieldAddr); isFA {
-										addr = fa.X
-									}
-									if _, isIA := addr.(*ssa.IndexAddr); isIA && reachesAfter(st, x) {
-										stale = true
+					var fieldArgs []ssa.Value
+					switch {
+					case c.declared(staticCallee(cc)) == ctor && len(cc.Common().Args) >= 2:
+						fieldArgs = []ssa.Value{cc.Common().Args[1]}
+					case wrapsCtor(c.declared(staticCallee(cc))):
+						for _, a := range cc.Common().Args {
+							if isStringType(a.Type()) || c.libNamedIs(a.Type(), "index", "Info") {
+								fieldArgs = append(fieldArgs, a)
+							}
+						}
+					default:
+						verdict, why = UNDECIDED, "the dropped index is not built by index.CreateIndex here"
+						continue
+					}
+					for _, fa0 := range fieldArgs {
+						for _, fo := range c.paramSources(fa0, 0) {
+							switch x := fo.(type) {
+							case *ssa.Parameter:
+							case *ssa.UnOp:
+								// a load from the catalog: no store into catalog entries may precede it
+								stale := false
+								for _, b2 := range fn.Blocks {
+									for _, in2 := range b2.Instrs {
+										st, isSt := in2.(*ssa.Store)
+										if !isSt {
+											continue
+										}
+										addr := st.Addr
+										if fa, isFA := addr.(*ssa.FieldAddr); isFA {
+											addr = fa.X
+										}
+										if _, isIA := addr.(*ssa.IndexAddr); isIA && reachesAfter(st, x) {
+											stale = true
+										}
 									}
 								}
+								if stale {
+									verdict, why = VIOLATED, "the field of the index to drop is read from a catalog slot after the catalog slice has been rearranged (swap-remove): a pointer into the slice now designates another index, whose entries are erased while the dropped index's entries stay behind"
+								}
+							case *ssa.Alloc, *ssa.Const:
+								// a description put together here
+							default:
+								verdict, why = UNDECIDED, "where the dropped index's field comes from was not established"
 							}
-							if stale {
-								verdict, why = VIOLATED, "the field of the index to drop is read from a catalog slot after the catalog slice has been rearranged (swap-remove): a pointer into the slice now designates another index, whose entries are erased while the dropped index's entries stay behind"
-							}
-						default:
-							verdict, why = UNDECIDED, "where the dropped index's field comes from was not established"
 						}
 					}
 				}
@@ -4663,6 +4699,10 @@ func ruleEMPTY2(c *Ctx) []Ob {
 		if typeString(fn.Params[0].Type()) != "reflect.Value" {
 			continue
 		}
+		// the emptiness test of omitempty is on the writer's side: what Normalize reaches
+		if norm := c.lookupFunc("internal", "Normalize"); norm != nil && !c.staticReach(norm)[fn] {
+			continue
+		}
 		hasIsNil := false
 		allCalls(fn, func(ci ssa.CallInstruction) {
 			if calleeFullName(ci) == "(reflect.Value).IsNil" {
@@ -5865,6 +5905,54 @@ func ruleIMP3(c *Ctx) []Ob {
 		})
 	}
 	key := "DB.ImportCollection/expiry restored as a time"
+	// ... for every text: the parse is attempted behind nothing but "the field is there and is a string"
+	// (comma-ok flags of a lookup / type assertion, nil tests). A test of the text itself - its length against
+	// len(time.RFC3339), 25, when "2031-05-06T07:08:09Z" has 20 characters - leaves some exported texts as
+	// strings, which Validate then refuses.
+	if parses {
+		for f := range c.staticReach(imp) {
+			if c.pkgRel(f) != "" && c.pkgRel(f) != "document" {
+				continue
+			}
+			allCalls(f, func(ci ssa.CallInstruction) {
+				if calleeFullName(ci) != "time.Parse" || len(ci.Common().Args) < 2 {
+					return
+				}
+				text := ci.Common().Args[1]
+				for _, dc := range dominatingConds(f, ci.Block()) {
+					// does the condition look at the text (other than through its comma-ok flag)?
+					looks := false
+					var walk func(v ssa.Value, d int)
+					walk = func(v ssa.Value, d int) {
+						if v == nil || d > 6 || looks {
+							return
+						}
+						if v == text || sameOrigin(v, text) {
+							looks = true
+							return
+						}
+						switch x := v.(type) {
+						case *ssa.BinOp:
+							walk(x.X, d+1)
+							walk(x.Y, d+1)
+						case *ssa.UnOp:
+							walk(x.X, d+1)
+						case *ssa.Call:
+							for _, a := range x.Call.Args {
+								walk(a, d+1)
+							}
+						case *ssa.Convert:
+							walk(x.X, d+1)
+						}
+					}
+					walk(dc.cond, 0)
+					if looks {
+						o.add(VIOLATED, "DB.ImportCollection/the expiry text is parsed whatever it looks like", relPath(c, ci.Pos()), "the parse that restores the exported text of the expiry field is attempted only behind a test of the text itself: an exported text the test turns away (a length test against len(time.RFC3339) = 25 refuses \"2031-05-06T07:08:09Z\", 20 characters, the form of every whole-second UTC expiry) stays a string, document.Validate refuses it, and the import of the collection fails")
+					}
+				}
+			})
+		}
+	}
 	if parses {
 		o.add(OK, key, relPath(c, imp.Pos()), "the import path parses a time back from its exported text")
 	} else {
@@ -6186,26 +6274,29 @@ func ruleIDX10(c *Ctx) []Ob {
 				}
 				n++
 				key := c.fname(fn) + "/catalog field name is valid UTF-8"
-				guards := guardEdges(fn, func(cond ssa.Value, branch bool) bool {
-					neg := false
-					for {
-						if u, ok := cond.(*ssa.UnOp); ok && u.Op == token.NOT {
-							cond, neg = u.X, !neg
-							continue
+				utf8Edges := func(fn *ssa.Function, src ssa.Value) []edge {
+					return guardEdges(fn, func(cond ssa.Value, branch bool) bool {
+						neg := false
+						for {
+							if u, ok := cond.(*ssa.UnOp); ok && u.Op == token.NOT {
+								cond, neg = u.X, !neg
+								continue
+							}
+							break
 						}
-						break
-					}
-					cl, ok := cond.(*ssa.Call)
-					if !ok {
-						return false
-					}
-					full := calleeFullName(cl)
-					if full != "unicode/utf8.ValidString" && full != "unicode/utf8.Valid" {
-						return false
-					}
-					a := cl.Common().Args[0]
-					return (a == src || sameOrigin(a, src)) && branch != neg
-				})
+						cl, ok := cond.(*ssa.Call)
+						if !ok {
+							return false
+						}
+						full := calleeFullName(cl)
+						if full != "unicode/utf8.ValidString" && full != "unicode/utf8.Valid" {
+							return false
+						}
+						a := cl.Common().Args[0]
+						return (a == src || sameOrigin(a, src)) && branch != neg
+					})
+				}
+				guards := c.validatedEdges(fn, src, utf8Edges, 0)
 				if guardedBy(fn, b, guards) {
 					o.add(OK, key, relPath(c, st.Pos()), "recorded only after utf8.ValidString accepted it")
 				} else {
